@@ -482,6 +482,17 @@ theorem string_elements_distinct (v w : Nat) : elemStr v = elemStr w ↔ v = w :
 
 example : elemStr 0 = [] ∧ elemStr 2 = [115] ∧ elemStr 12 = [115, 49, 50] := by decide
 
+/-- tie obligation: every `as` cast in the bodies of the list bindings of
+    `src/runtime/basic.rs` (the script side passes `u64`, the list API takes and
+    returns `usize`) goes to `u64` or `usize` — no index, length or capacity is
+    narrowed on its way between a script and the list (regenerated:
+    `Gen.ListJoin.bindingCasts`). -/
+theorem adapters_do_not_narrow :
+    ∀ c ∈ Gen.ListJoin.bindingCasts, c.2.2.2.keepsIndices = true := by
+  decide
+
+example : CastTy.keepsIndices .u32 = false ∧ CastTy.keepsIndices .i64 = false ∧ CastTy.keepsIndices .usize = true := by decide
+
 /-! ### the defect of the pinned tree -/
 
 /-- two distinct lists with equal contents, as `List::from([1])` twice -/
